@@ -21,6 +21,7 @@ MINI = {
 EXAMPLES = {
     ':ARG[0-9]': [':ARG0', ':ARG9'], ':op[0-9]+': [':op1', ':op10'], ':snt[0-9]+': [':snt2'],
     ':p[0-9]+': [':p1', ':p22'], ':q[ab]': [':qa', ':qb'],
+    ':(u|w)-of': [':u-of', ':w-of'], ':prep-(out|in-place)-of': [':prep-out-of', ':prep-in-place-of'],
 }
 
 
@@ -29,7 +30,8 @@ def rand_spec(seed, chains=False):
     literal roles, values are defined literal roles (fixed points) unless
     *chains* (then values may themselves be keys: R-norm not satisfied)."""
     rng = random.Random(f'model:{seed}')
-    lits = [':r0', ':r1', ':r2', ':x-of', ':y-z-of', ':p[0-9]+', ':q[ab]', ':k', ':m-n']
+    lits = [':r0', ':r1', ':r2', ':x-of', ':y-z-of', ':p[0-9]+', ':q[ab]', ':k', ':m-n', ':(u|w)-of',
+            ':prep-(out|in-place)-of']
     chosen = rng.sample(lits, rng.randrange(2, len(lits)))
     roles = {r: {} for r in chosen}
     lit_defined = [r for r in chosen if '[' not in r]
@@ -68,10 +70,35 @@ def from_spec(spec, name):
 
 
 _cache = {}
+# Model churn: every CHURN-th lookup hands out a *new* penman Model object built from the same
+# table (the reference model stays cached).  Short-lived, equal-but-not-identical models of
+# different tables are what exposes state keyed on the identity of a model (id() reuse after
+# garbage collection) or shared between all models (class attributes, module-level caches).
+CHURN = 3
+_lookups = [0]
+
+
+def _fresh(name, spec):
+    if name == 'default':
+        return Model()
+    if name == 'amr':
+        return Model(top_variable='top', top_role=':TOP', concept_role=':instance', roles=_amr.roles,
+                     normalizations=_amr.normalizations, reifications=_amr.reifications)
+    if name == 'noop':
+        return _noop.NoOpModel()
+    return from_spec(spec, name)[0]
 
 
 def get(name):
     """name: 'default' | 'amr' | 'noop' | 'mini' | 'rand<N>' | 'chain<N>'"""
+    e = _get(name)
+    _lookups[0] += 1
+    if CHURN and _lookups[0] % CHURN == 0:
+        return (e[0], _fresh(name, e[3]), e[2], e[3])
+    return e
+
+
+def _get(name):
     if name in _cache:
         return _cache[name]
     if name == 'default':
